@@ -33,6 +33,7 @@ structure St where
   flushedSomething : Bool := false
   expected : List (Bool × Batch) := []   -- (is the direct SeekGC, batch)
   rdb : Db := Db.empty
+  top : Nat := 0             -- highest header/block height seen in the case
 
 def B : Nat := Generated.Stages.headerBatchCount
 def Sblocks : Nat := Generated.Stages.resetBlocksBatch
@@ -165,7 +166,7 @@ def step (s : St) (ws : List String) : St × String :=
     match s.node, b.toNat? with
     | some n, some hb =>
       let H := mkHist s.tbl
-      ({ s with node := some (Persist.step H B n (.headers hb)).1 }, "ok")
+      ({ s with node := some (Persist.step H B n (.headers hb)).1, top := max s.top hb }, "ok")
     | _, _ => (s, "bad-op")
   | ["blk", h, ntx, pairs] =>
     match s.node, h.toNat?, ntx.toNat? with
@@ -173,7 +174,7 @@ def step (s : St) (ws : List String) : St × String :=
       if hh ≠ n.height + 1 then (s, "bad-height") else
       let tbl := (hh, { ntx := nt, pairs := parsePairs pairs : BlkInfo }) :: s.tbl
       let H := mkHist tbl
-      ({ s with tbl := tbl, node := some (Persist.step H B n .block).1 }, "ok")
+      ({ s with tbl := tbl, node := some (Persist.step H B n .block).1, top := max s.top hh }, "ok")
     | _, _, _ => (s, "bad-op")
   | ["flush"] =>
     match s.node with
@@ -202,8 +203,7 @@ def step (s : St) (ws : List String) : St × String :=
   | "rbatch" :: rest =>
     let real := String.intercalate " " rest
     let H := mkHist s.tbl
-    let top := match s.node with | some n => max n.hdrHeight (s.tbl.foldl (fun m p => max m p.1) 0) | none => 0
-    let keys := keyUniverse H top
+    let keys := keyUniverse H s.top
     -- candidates: the next n expected batches coalesced; with the SeekGC swapped one place earlier
     let tryFrom (e : List (Bool × Batch)) : Option (St) :=
       let rec go (n : Nat) (fuel : Nat) : Option St :=
